@@ -159,3 +159,37 @@ def xyz_make_foreign(path):
         i += 2 + n
     with open(path, "w", encoding="utf-8", newline="") as f:
         f.write("\r\n".join(out) + "\r\n")
+
+
+def dcd_make_fixed(src, dst, n_atoms, n_frames, fixed=(3, 7)):
+    """CHARMM/NAMD DCD with fixed atoms: header NAMNF = number of fixed atoms, a block listing the (1-based) free atoms
+    after the NATOM block, the first frame complete, every later frame holding only the free atoms."""
+    raw = open(src, "rb").read()
+    assert _struct.unpack("<i", raw[:4])[0] == 84 and raw[4:8] == b"CORD"
+    icntrl = list(_struct.unpack("<20i", raw[8:88]))
+    assert icntrl[10] == 0, "source must not carry a unit cell block"
+    fixed = sorted(fixed)
+    free = [i for i in range(n_atoms) if i not in fixed]
+    icntrl[8] = len(fixed)
+    pos = 92
+    title_len = _struct.unpack("<i", raw[pos:pos + 4])[0]
+    pos += 4 + title_len + 4
+    assert _struct.unpack("<3i", raw[pos:pos + 12]) == (4, n_atoms, 4)
+    pos += 12
+    nfree = len(free)
+    freeblock = _struct.pack("<i", 4 * nfree) + _struct.pack("<%di" % nfree, *[i + 1 for i in free]) + _struct.pack("<i", 4 * nfree)
+    out = [raw[:8] + _struct.pack("<20i", *icntrl) + raw[88:pos] + freeblock]
+    block = 4 + 4 * n_atoms + 4
+    assert len(raw) - pos == 3 * block * n_frames
+    mk = _struct.pack("<i", 4 * nfree)
+    for k in range(n_frames):
+        fr = raw[pos:pos + 3 * block]
+        if k == 0:
+            out.append(fr)
+        else:
+            for ax in range(3):
+                v = np.frombuffer(fr[ax * block + 4:ax * block + 4 + 4 * n_atoms], dtype="<f4")
+                out.append(mk + v[free].astype("<f4").tobytes() + mk)
+        pos += 3 * block
+    with open(dst, "wb") as f:
+        f.write(b"".join(out))
